@@ -160,7 +160,7 @@ func (s *c07state) start(i int) {
 		if mem.St != 4 {
 			continue
 		}
-		if mem.Pre && (mem.Kind == 'G' || mem.Kind == 'i' || mem.Kind == 'e' || mem.Kind == 'q') {
+		if mem.Pre && (mem.Kind == 'G' || mem.Kind == 'i' || mem.Kind == 'e' || mem.Kind == 'q' || mem.Kind == 'b') {
 			mem.St = 3 // answered with a cancellation error; the handler never runs
 			continue
 		}
@@ -173,7 +173,7 @@ func (s *c07state) start(i int) {
 			} else {
 				mem.St = 2
 			}
-		case 'i', 'e', 'q':
+		case 'i', 'e', 'q', 'b':
 			s.Started[mem.Tag] = true
 			s.Exited[mem.Tag] = true
 			mem.St = 3
@@ -196,7 +196,7 @@ func (s *c07state) deliver(i int, seq map[string]string) {
 		switch {
 		case mem.St == 1:
 			parts = append(parts, fmt.Sprintf("id=%s error=-32600:duplicate request ID", mem.ID))
-		case mem.Pre && (mem.Kind == 'G' || mem.Kind == 'i' || mem.Kind == 'e' || mem.Kind == 'q'):
+		case mem.Pre && (mem.Kind == 'G' || mem.Kind == 'i' || mem.Kind == 'e' || mem.Kind == 'q' || mem.Kind == 'b'):
 			parts = append(parts, fmt.Sprintf("id=%s error=-32097:", mem.ID))
 		case mem.Kind == 'G' || mem.Kind == 'i':
 			parts = append(parts, fmt.Sprintf("id=%s result=%s/TOKEN", mem.ID, mem.Tag))
@@ -209,6 +209,11 @@ func (s *c07state) deliver(i int, seq map[string]string) {
 		}
 		if mem.St != 1 {
 			delete(s.Reserved, mem.ID)
+		}
+	}
+	for _, mem := range m.Members {
+		if mem.Kind == 'b' && mem.St == 3 && !mem.Pre && mem.ID != "" {
+			parts = nil // the reply cannot be encoded; nothing is sent (the ids are released all the same)
 		}
 	}
 	if len(parts) > 0 {
@@ -338,7 +343,7 @@ func c07alphabet() []c07op {
 	batch := func(ms ...c07member) c07op { return c07op{Kind: "msg", Members: ms, Batch: true} }
 	return []c07op{
 		call("1", 'G'), call("1", 'i'), call("1", 'n'), call("1", 'e'), call("1", 'q'), call("1", 'r'),
-		call("12", 'G'), call("12", 'i'), call(`"a"`, 'G'),
+		call("12", 'G'), call("12", 'i'), call(`"a"`, 'G'), call(`"1"`, 'G'), call("1", 'b'),
 		call("", 'G'), // gated notification: parks the dispatcher for later messages
 		batch(c07member{ID: "1", Kind: 'G'}, c07member{ID: "1", Kind: 'G'}),
 		batch(c07member{ID: "1", Kind: 'G'}, c07member{ID: "12", Kind: 'i'}),
@@ -351,7 +356,7 @@ func c07alphabet() []c07op {
 func c07wire(o c07op) string {
 	var parts []string
 	for _, m := range o.Members {
-		method := map[byte]string{'G': "G", 'i': "i", 'e': "e", 'q': "r", 'n': "nosuch", 'r': "rpc.reserved"}[m.Kind]
+		method := map[byte]string{'G': "G", 'i': "i", 'e': "e", 'q': "r", 'b': "b", 'n': "nosuch", 'r': "rpc.reserved"}[m.Kind]
 		parts = append(parts, peer.Req(m.ID, method, m.Tag))
 	}
 	if o.Batch {
@@ -691,7 +696,7 @@ func init() {
 	vt.Register(&vt.Check{
 		Prop:  "C07",
 		Level: "exploration",
-		Rule: "histories over {call(id in {1,12,\"a\"}, method in {stubborn gated, instant, error, error coded -32600 by the handler, unknown, reserved rpc.*}), batches with equal ids / mixed outcomes, gated notification (parks the dispatcher), " +
+		Rule: "histories over {call(id in {1,12,\"a\",\"1\" (a string that spells a number)}, method in {stubborn gated, instant, error, error coded -32600 by the handler, error whose data cannot be encoded (no reply can be sent; the id must be released all the same), unknown, reserved rpc.*}), batches with equal ids / mixed outcomes, gated notification (parks the dispatcher), " +
 			"CancelRequest(1|12), release of the k-th oldest gate}: all histories up to length 3 (4 in thorough) plus seeded longer ones; after every operation the reserved-id snapshot, queue length, " +
 			"handlers entered/exited and replies must be admissible under the reference reservation model; plus delay-bounded schedules and seeded perturbation. " +
 			"distinct_nontrivial = distinct (history, delay set) in which an id is reused or a CancelRequest names a used id",
